@@ -14,6 +14,7 @@ def build_path(mesh : Mesh, paths):
             for i in range(1, len(l)):
                 path_mesh.vertices.append(mesh.vertices[l[i]])
                 path_mesh.edges.append((k+i-1,k+i))
+        k += len(l)
     return path_mesh
 
 def _check_weight_argument(weights):
